@@ -76,6 +76,13 @@ func c16Needles(mech int, secret string) map[string]string {
 	return n
 }
 
+func c16Describe(l string, p int) string {
+	if strings.HasPrefix(l, "EHLO") {
+		return l + "=ok, then the client's next write fails"
+	}
+	return l + "=" + c16AltNames[p]
+}
+
 var c16AltNames = []string{"conforming", "535", "non-base64 challenge", "extra challenge", "drop", "conforming reply, then the client's next write fails"}
 
 func c16Exec(r *vf.Run, cfg c16Cfg, c *vf.Chooser) (keys, whats []string, controlHit bool) {
@@ -276,7 +283,7 @@ func c16Exec(r *vf.Run, cfg c16Cfg, c *vf.Chooser) (keys, whats []string, contro
 		}
 	} else if len(leaks) > 0 {
 		// which server behaviour preceded the leak?
-		add(fmt.Sprintf("secret-logged/mech=%s/logger=%d", mech, cfg.Logger), fmt.Sprintf("%s: the log contains %v; server script: %s", mech, leaks, c.Describe(func(l string, p int) string { return l + "=" + c16AltNames[p] })))
+		add(fmt.Sprintf("secret-logged/mech=%s/logger=%d", mech, cfg.Logger), fmt.Sprintf("%s: the log contains %v; server script: %s", mech, leaks, c.Describe(c16Describe)))
 	}
 	// window closes: commands issued after authentication returned are logged verbatim
 	if authReturned >= 0 && !cfg.LogAuth {
@@ -347,7 +354,7 @@ func init() {
 						r.Outcome("leak-or-window")
 					}
 					if r.NSamples() < 5 && c.Deviations() == 2 {
-						r.Sample(map[string]interface{}{"cfg": cfg, "mechanism": c16Mechs[cfg.Mech], "script": c.Describe(func(l string, p int) string { return l + "=" + c16AltNames[p] })})
+						r.Sample(map[string]interface{}{"cfg": cfg, "mechanism": c16Mechs[cfg.Mech], "script": c.Describe(c16Describe)})
 					}
 					kase := c16Case{Cfg: cfg, Prefix: append([]int{}, c.Picks...)}
 					for j, k := range keys {
